@@ -254,6 +254,9 @@ def gurobi_roundtrip(f, ctx):
                 return None
             return {'what': 'gurobi cannot read the written file', 'error': str(e)[:200]}
         m.Params.DualReductions = 0
+        m.Params.Threads = 1
+        if getattr(f, 'qmat', None):
+            m.Params.BarQCPConvTol = 1e-10     # same parameters as the direct solve
         try:
             m.optimize()
         except gp.GurobiError:
@@ -261,9 +264,14 @@ def gurobi_roundtrip(f, ctx):
         st = m.Status
         ctx.count('gurobi_roundtrips')
         if direct[0] == 'optimal':
-            if st != gp.GRB.OPTIMAL:
+            if st in (gp.GRB.INFEASIBLE, gp.GRB.UNBOUNDED, gp.GRB.INF_OR_UNBD):
                 return {'what': 'file optimum differs from direct solve',
                         'file_status': int(st), 'direct': direct[1]}
+            if st != gp.GRB.OPTIMAL:
+                # SUBOPTIMAL / NUMERIC / limits: the solver does not claim an optimum, nothing
+                # to compare (seen with the tight barrier tolerance on quadratic rows)
+                ctx.count('file_solve_without_verdict:%d' % int(st))
+                return None
             if abs(m.ObjVal - direct[1]) > 1e-5 * (1 + abs(direct[1])):
                 return {'what': 'file optimum differs from direct solve',
                         'file': float(m.ObjVal), 'direct': direct[1]}
